@@ -12,115 +12,13 @@ pub mod n6 {
 }
 use n6::*;
 
-//@ item src:zvt_builder/src/lib.rs | struct Tag | derive=Debug,PartialEq,Eq,Structural
-//@ item src:zvt_builder/src/lib.rs | enum ZVTError | derive=Debug
-#[derive(Debug)]
-pub enum FeigError { Unused }
-// N10: one error type; ZVTResult and anyhow::Result are the same alias here
-pub type Result<T> = core::result::Result<T, VErr>;
-pub type ZVTResult<T> = core::result::Result<T, VErr>;
-//@ include ../prelude/transport.rs
-
-// the `encoding::Default: encoding::Encoding<T>` bounds of io.rs are kept; they carry no behaviour here
-pub mod encoding {
-    pub struct Default;
-    pub trait Encoding<T> {}
-    impl<T> Encoding<T> for Default {}
-}
-
-/// Abstract contract of a reply parser (proved per enum in U3)
-pub trait ZvtParser: Sized {
-    spec fn parse_spec(b: Seq<u8>) -> Option<Self>;
-    //@ fn src:zvt_builder/src/lib.rs | trait ZvtParser | zvt_parse | sig
-        ensures
-            r matches Ok(v) ==> Self::parse_spec(bytes@) == Some(v),
-            r is Err ==> Self::parse_spec(bytes@) is None,
-    //@ end
-}
-/// Abstract contract of a packet serialiser (proved in U1/U2)
-pub trait ZvtSerializer: Sized {
-    spec fn zs_spec(&self) -> Seq<u8>;
-    fn zvt_serialize(&self) -> (r: Vec<u8>)
-        ensures r@ =~= self.zs_spec();
-}
-pub mod packets {
-    use vstd::prelude::*;
-    //@ item src:zvt/src/packets.rs | struct Ack
-    impl super::ZvtSerializer for Ack {
-        /// 80 00 00
-        open spec fn zs_spec(&self) -> Seq<u8> { seq![0x80u8, 0x00u8, 0x00u8] }
-        #[verifier::external_body]
-        fn zvt_serialize(&self) -> (r: Vec<u8>) { unimplemented!() }
-    }
-}
-/// the reply enum `io::Ack`: only 80 00 parses
-//@ item src:zvt/src/io.rs | enum Ack
-impl ZvtParser for Ack {
-    uninterp spec fn parse_spec(b: Seq<u8>) -> Option<Self>;
-    #[verifier::external_body]
-    fn zvt_parse(bytes: &[u8]) -> (r: ZVTResult<Self>) { unimplemented!() }
-}
-
-//@ item src:zvt/src/io.rs | struct PacketTransport
+//@ include pt_prelude.tpl PACKETS=empty.tpl
 
 impl<S> PacketTransport<S>
 where
     S: VSource,
 {
-    //@ fn src:zvt/src/io.rs | impl PacketTransport<S> | read_packet | props=C04,C02
-        ensures
-    //@ tag io.read.nowrite C04 C06
-            final(self).source.writes() == old(self).source.writes(),
-    //@ tag io.read.exact C04
-            r matches Ok(p) ==> (apdu_total(old(self).source.inbox()) matches Some(tot)
-                && final(self).source.inbox() =~= old(self).source.inbox().skip(tot)
-                && final(self).source.consumed() == old(self).source.consumed() + tot
-                && T::parse_spec(old(self).source.inbox().take(tot)) == Some(p)),
-    //@ tag io.read.eof C04 C06
-            apdu_total(old(self).source.inbox()) is None ==> r is Err,
-    //@ tag io.read.undecodable C06
-            (apdu_total(old(self).source.inbox()) matches Some(tot) && T::parse_spec(old(self).source.inbox().take(tot)) is None) ==> r is Err,
-    //@ entry
-        let ghost inbox0 = self.source.inbox();
-    //@ tail
-        proof { assert(buf@ =~= inbox0.take(buf@.len() as int)); }
-    //@ end
-
-    //@ fn src:zvt/src/io.rs | impl PacketTransport<S> | write_packet | props=C04,C05
-        ensures
-    //@ tag io.write.exact C04 C05
-            final(self).source.writes() == old(self).source.writes().push((msg.zs_spec(), old(self).source.consumed())),
-            final(self).source.inbox() == old(self).source.inbox(),
-            final(self).source.consumed() == old(self).source.consumed(),
-    //@ end
-
-    //@ fn src:zvt/src/io.rs | impl PacketTransport<S> | read_packet_with_ack | props=C04,C05
-        ensures
-    //@ tag io.readack C05 C06
-            r matches Ok(p) ==> (apdu_total(old(self).source.inbox()) matches Some(tot)
-                && final(self).source.inbox() =~= old(self).source.inbox().skip(tot)
-                && T::parse_spec(old(self).source.inbox().take(tot)) == Some(p)
-                && final(self).source.writes() == old(self).source.writes().push((seq![0x80u8, 0x00u8, 0x00u8], (old(self).source.consumed() + tot) as nat))),
-            // never acknowledge what could not be read or interpreted
-            (apdu_total(old(self).source.inbox()) is None
-                || (apdu_total(old(self).source.inbox()) matches Some(tot) && T::parse_spec(old(self).source.inbox().take(tot)) is None))
-              ==> (r is Err && final(self).source.writes() == old(self).source.writes()),
-    //@ end
-
-    //@ fn src:zvt/src/io.rs | impl PacketTransport<S> | write_packet_with_ack | props=C04,C05
-        ensures
-    //@ tag io.writeack C05 C06
-            // the command is written exactly once, first, and nothing else is written
-            final(self).source.writes() == old(self).source.writes().push((msg.zs_spec(), old(self).source.consumed())),
-            r is Ok ==> (apdu_total(old(self).source.inbox()) matches Some(tot)
-                && final(self).source.inbox() =~= old(self).source.inbox().skip(tot)
-                && final(self).source.consumed() == old(self).source.consumed() + tot
-                && Ack::parse_spec(old(self).source.inbox().take(tot)) is Some),
-            // anything but a positive acknowledgement is an error
-            (apdu_total(old(self).source.inbox()) is None
-                || (apdu_total(old(self).source.inbox()) matches Some(tot) && Ack::parse_spec(old(self).source.inbox().take(tot)) is None))
-              ==> r is Err,
-    //@ end
+    //@ include pt_methods.tpl MODE=verify GHOST=pt_read_ghost.tpl
 }
 
 //@ tag io.header_agreement C04
